@@ -220,6 +220,29 @@ def site_cases(ev, ctx, l, allow_multi=False, depth=0):
                         sub.append(("Some", fs, some_v))
                     elif K is False:
                         sub.append(("None", fs, vcall))
+            if sub is None and model in ("Option::map", "Option::cloned", "Option::copied") and payload["args"]:
+                # Some exactly when the receiver is Some: split by where the receiver got its value, keeping what is known
+                # there (`self.reserve(n).map(|(begin, _)| begin)`)
+                pl = _plain_local(payload["args"][0])
+                csub = local_cases(ev, ctx, pl, False, depth + 1) if pl is not None else None
+                if csub:
+                    recv = unref(ev.operand(ctx, payload["args"][0]))
+                    vcall = ev.call(ctx, bb, payload)
+                    sub = []
+                    for (K, fs, v) in csub:
+                        if K == "Some":
+                            if v is not None and v[0] == "agg" and v[2] and model == "Option::map" and len(payload["args"]) == 2:
+                                mv = ("agg", "std::option::Option::Some",
+                                      (ev.closure_ret(ctx, ev.operand(ctx, payload["args"][1]), [v[2][0]]),))
+                            elif v is not None and v[0] == "agg" and v[2]:
+                                mv = ("agg", "std::option::Option::Some", (("call", "clone", (v[2][0],)),))
+                            else:
+                                mv = vcall
+                            sub.append(("Some", list(fs) + [("is_some", recv, True)], mv))
+                        elif K == "None":
+                            sub.append(("None", list(fs) + [("is_some", recv, False)], ("agg", "std::option::Option::None", ())))
+                    if not sub:
+                        sub = None
             if sub is None and model == "Option::filter" and len(payload["args"]) == 2:
                 # Some(x) exactly when the receiver is Some(x) and the predicate holds for x
                 recv = ev.operand(ctx, payload["args"][0])
